@@ -71,9 +71,11 @@ type GAnd struct{ A, B G }               //
 type GOr struct{ A, B G }                //
 type GStrEq struct{ Path, Const string } // string field == constant
 type GNil struct{ Path string }          // pointer field == nil
-type GBoolEq struct{ A, B G }            // a == b on bools
-type GType struct{ Path, Type string }   // dynamic type of interface value is Type
-type GDyn struct {                       // bool method through an interface
+// GStrTest is a test on the text of a string location: strings.HasPrefix / HasSuffix / Contains(Path, Const).
+type GStrTest struct{ Path, Op, Const string }
+type GBoolEq struct{ A, B G }          // a == b on bools
+type GType struct{ Path, Type string } // dynamic type of interface value is Type
+type GDyn struct {                     // bool method through an interface
 	Path  string
 	Impls map[string]G
 }
@@ -86,19 +88,20 @@ type GIdx struct {
 }
 type GCut struct{ Fn string }
 
-func (GConst) isG()  {}
-func (GLeaf) isG()   {}
-func (GNot) isG()    {}
-func (GAnd) isG()    {}
-func (GOr) isG()     {}
-func (GStrEq) isG()  {}
-func (GNil) isG()    {}
-func (GBoolEq) isG() {}
-func (GType) isG()   {}
-func (GDyn) isG()    {}
-func (GIf) isG()     {}
-func (GIdx) isG()    {}
-func (GCut) isG()    {}
+func (GConst) isG()   {}
+func (GLeaf) isG()    {}
+func (GNot) isG()     {}
+func (GAnd) isG()     {}
+func (GOr) isG()      {}
+func (GStrEq) isG()   {}
+func (GNil) isG()     {}
+func (GStrTest) isG() {}
+func (GBoolEq) isG()  {}
+func (GType) isG()    {}
+func (GDyn) isG()     {}
+func (GIf) isG()      {}
+func (GIdx) isG()     {}
+func (GCut) isG()     {}
 
 // ---------- symbolic values ----------
 
@@ -481,6 +484,7 @@ func (x *Extractor) execIfT(pkg *packages.Package, s *ast.IfStmt, rest []ast.Stm
 		joinEnv(e, cond, thenEnv, elseEnv)
 		return x.execBlockT(pkg, rest, e, tail)
 	case rThen != nil && rElse == nil:
+		pre := e.clone()
 		joinEnv(e, GConst{false}, thenEnv, elseEnv) // continue with the else-side state
 		rRest := x.execBlock(pkg, rest, e)
 		if rRest == nil {
@@ -490,16 +494,43 @@ func (x *Extractor) execIfT(pkg *packages.Package, s *ast.IfStmt, rest []ast.Stm
 			}
 			x.fail(s.Pos(), "a branch returns but the rest of the block does not")
 		}
+		mergeAtReturn(e, pre, cond, thenEnv)
 		return altSym(cond, rThen, rRest)
 	case rThen == nil && rElse != nil:
+		pre := e.clone()
 		joinEnv(e, GConst{true}, thenEnv, elseEnv)
 		rRest := x.execBlock(pkg, rest, e)
 		if rRest == nil {
 			x.fail(s.Pos(), "a branch returns but the rest of the block does not")
 		}
+		mergeAtReturn(e, pre, GNot{X: cond}, elseEnv)
 		return altSym(cond, rRest, rElse)
 	default:
 		return altSym(cond, rThen, rElse)
+	}
+}
+
+// mergeAtReturn: a branch returned early (under c) with the state retEnv while e went on through the rest of the
+// block: the accumulators that outlive the function (builders handed in by pointer, captured variables) hold the
+// returning side's content under c and the continuing side's content otherwise.
+func mergeAtReturn(e, pre *env, c G, retEnv *env) {
+	post := e.clone()
+	for k, after := range post.vars {
+		old, had := pre.get(k)
+		if !had {
+			continue
+		}
+		a, okA := retEnv.get(k)
+		if !okA {
+			a = old
+		}
+		if fmt.Sprintf("%v", a) == fmt.Sprintf("%v", after) {
+			continue
+		}
+		switch after.(type) {
+		case sStr, sList:
+			e.set(k, joinSym(c, old, a, after))
+		}
 	}
 }
 
@@ -1401,6 +1432,13 @@ func (x *Extractor) evalCallInl(pkg *packages.Package, call *ast.CallExpr, e *en
 				switch full {
 				case "fmt.Sprintf":
 					return x.sprintf(pkg, call, e)
+				case "strings.HasPrefix", "strings.HasSuffix", "strings.Contains":
+					subj, ok1 := x.eval(pkg, call.Args[0], e).(sStr)
+					if h, isHole := subj.T.(Hole); ok1 && isHole {
+						if tv, ok := info.Types[call.Args[1]]; ok && tv.Value != nil && tv.Value.Kind() == constant.String {
+							return sBool{G: GStrTest{Path: h.Path, Op: fun.Sel.Name, Const: constant.StringVal(tv.Value)}}
+						}
+					}
 				case "strings.Join":
 					l, ok1 := x.eval(pkg, call.Args[0], e).(sList)
 					sep, ok2 := x.eval(pkg, call.Args[1], e).(sStr)
@@ -1530,6 +1568,14 @@ func (x *Extractor) inline(fn *types.Func, recv sym, call *ast.CallExpr, pkg *pa
 	fd := x.decls[fn]
 	if fd == nil {
 		x.fail(call.Pos(), "call of %s: no source", fn.FullName())
+	}
+	// a helper that writes into a builder handed over by pointer is inlined for its effects as well as its result
+	if ps := fn.Type().(*types.Signature).Params(); ps != nil {
+		for i := 0; i < ps.Len(); i++ {
+			if isBuilderPtr(ps.At(i).Type()) {
+				return x.inlineEffects(fn, recv, call, pkg, e)
+			}
+		}
 	}
 	isBool := false
 	if res := fn.Type().(*types.Signature).Results(); res.Len() == 1 {
